@@ -1,4 +1,7 @@
 mod c04;
+mod c22;
+mod c23;
+mod c47;
 mod enc;
 mod gen;
 mod grid;
@@ -11,6 +14,12 @@ mod tvq;
 use serde_json::json;
 
 fn main() {
+    // panics inside datafusion (caught per program) should not flood stderr
+    std::panic::set_hook(Box::new(|info| {
+        if std::env::var("VERIF_DEBUG").is_ok() {
+            eprintln!("panic: {info}");
+        }
+    }));
     let args: Vec<String> = std::env::args().collect();
     let cmd = args.get(1).map(|s| s.as_str()).unwrap_or("");
     let thorough = std::env::var("VERIF_TIER").map(|t| t == "thorough").unwrap_or(false);
@@ -30,6 +39,21 @@ fn main() {
             let threads: usize = std::env::var("VERIF_THREADS").ok().and_then(|s| s.parse().ok()).unwrap_or(8);
             let out = c04::run(thorough, seed, threads);
             println!("{}", out);
+        }
+        "c22" => {
+            let seed: u64 = std::env::var("VERIF_SEED").ok().and_then(|s| s.parse().ok()).unwrap_or(0);
+            let threads: usize = std::env::var("VERIF_THREADS").ok().and_then(|s| s.parse().ok()).unwrap_or(8);
+            println!("{}", c22::run(thorough, seed, threads));
+        }
+        "c23" => {
+            let seed: u64 = std::env::var("VERIF_SEED").ok().and_then(|s| s.parse().ok()).unwrap_or(0);
+            let threads: usize = std::env::var("VERIF_THREADS").ok().and_then(|s| s.parse().ok()).unwrap_or(8);
+            println!("{}", c23::run(thorough, seed, threads));
+        }
+        "c47" => {
+            let seed: u64 = std::env::var("VERIF_SEED").ok().and_then(|s| s.parse().ok()).unwrap_or(0);
+            let threads: usize = std::env::var("VERIF_THREADS").ok().and_then(|s| s.parse().ok()).unwrap_or(8);
+            println!("{}", c47::run(thorough, seed, threads));
         }
         _ => {
             eprintln!("usage: tv <grid|c04|...>");
